@@ -116,6 +116,13 @@ func runVote(ctx *action.Context, tx action.RawTx) (bool, action.Response) {
 		}
 	}
 
+	// only the four defined opinions can be tallied
+	if err = vote.Opinion.Err(); err != nil {
+		return false, action.Response{
+			Log: gov.ErrInvalidVoteOpinion.Marshal(),
+		}
+	}
+
 	// Add this vote to proposal vote store
 	pv := gov.NewProposalVote(vote.ValidatorAddress, vote.Opinion, validator.Power)
 	err = ctx.ProposalMasterStore.ProposalVote.Update(vote.ProposalID, pv)
